@@ -193,20 +193,28 @@ fn asg_case(idx: usize, c: &Value, rep: &mut Report, extra: usize, seed: u64, pe
     if opt.len() > 1 {
         rep.count("several_optima", 1);
     }
-    let mut ents: Vec<(u64, u64, f32)> = vec![];
+    // every other case also streams the absent pairs, as the metrics do: a pair gated out by the chi-square
+    // bound arrives with metric 0.0, a pair without positional metric with None (weight 0 = no pair)
+    let zeros = idx % 2 == 1;
+    let mut ents: Vec<(u64, u64, Option<f32>)> = vec![];
     for r in 0..nr {
         for x in 0..nc {
             if w[r][x] > 0 {
-                ents.push((QBASE + 1 + r as u64, 1 + x as u64, w[r][x] as f32 / sc));
+                ents.push((QBASE + 1 + r as u64, 1 + x as u64, Some(w[r][x] as f32 / sc)));
+            } else if zeros {
+                ents.push((QBASE + 1 + r as u64, 1 + x as u64, if (r + x) % 2 == 0 { Some(0.0) } else { None }));
             }
         }
     }
-    let appears: Vec<bool> = (0..nr).map(|r| w[r].iter().any(|&v| v > 0)).collect();
+    if zeros {
+        rep.count("streams_with_zero_entries", 1);
+    }
+    let appears: Vec<bool> = (0..nr).map(|r| (zeros && nc > 0) || w[r].iter().any(|&v| v > 0)).collect();
     let ords = orders(ents.len(), extra, seed ^ (idx as u64).wrapping_mul(0x9E37_79B9_7F4A_7C15));
     for ord in &ords {
         rep.steps += 1;
         let stream: Vec<ObservationMetricOk<Universal2DBox>> =
-            ord.iter().map(|&i| ObservationMetricOk::new(ents[i].0, ents[i].1, Some(ents[i].2), None)).collect();
+            ord.iter().map(|&i| ObservationMetricOk::new(ents[i].0, ents[i].1, ents[i].2, None)).collect();
         let r = std::panic::catch_unwind(std::panic::AssertUnwindSafe(|| {
             SortVoting::new(thr_i as f32 / sc * perturb, nr, nc).winners(stream)
         }));
